@@ -84,7 +84,7 @@ def main(pid, tier, budget):
 			left = deadline - time.time()
 			if left <= 0.2:
 				break
-			signal.setitimer(signal.ITIMER_REAL, max(0.2, left / max(1, len(reps) - len(ran))))
+			signal.setitimer(signal.ITIMER_REAL, max(0.2, left / max(1, len(reps) - len(ran))), 0.2)      # re-fires in case a library swallows the exception
 			try:
 				getattr(mod, fname)(**kw)
 				ran.append(fname)
